@@ -69,9 +69,9 @@ def cases(tier, seed):
         for ep in MOMENTS + ["ExponentiatedGradient", "GridSearch", "ThresholdOptimizer"]:
             out.append(("missing_sf", [ep, r]))
         out += [("to_config", [i, r]) for i in range(28)]
-        out += [("bounds", [i, r]) for i in range(40)]
-        out += [("costs", [i, r]) for i in range(12)]
-        out += [("weight", [i, r]) for i in range(6)]
+        out += [("bounds", [i, r]) for i in range(45)]
+        out += [("costs", [i, r]) for i in range(15)]
+        out += [("weight", [i, r]) for i in range(7)]
         out += [("names", [i, r]) for i in range(16)]
         out += [("corr_ids", [i, r]) for i in range(6)]
         out += [("not_fitted", [i, r]) for i in range(14)]
@@ -303,7 +303,7 @@ def run_bounds(ctx, rng, key):
     kinds = ["DemographicParity", "TruePositiveRateParity", "FalsePositiveRateParity", "EqualizedOdds", "ErrorRateParity"]
     kind = kinds[i % 5]
     specs = [dict(difference_bound=0.1, ratio_bound=0.8), dict(difference_bound=0.0, ratio_bound=1.0), dict(ratio_bound=0.0), dict(ratio_bound=-0.5),
-             dict(ratio_bound=1.5), dict(ratio_bound=2), dict(ratio_bound=1.0000001), dict(ratio_bound=-1e-9, ratio_bound_slack=0.1)]
+             dict(ratio_bound=1.5), dict(ratio_bound=2), dict(ratio_bound=1.0000001), dict(ratio_bound=-1e-9, ratio_bound_slack=0.1), dict(ratio_bound=float("nan"))]
     spec = specs[(i // 5) % len(specs)]
     d = base_data(rng)
     wit = {"moment": kind, "arguments": {k: float(v) for k, v in spec.items()}}
@@ -320,7 +320,8 @@ def run_costs(ctx, rng, key):
 
     i, _ = key
     specs = [{"fp": -1.0, "fn": 1.0}, {"fp": 1.0, "fn": -0.1}, {"fp": 0.0, "fn": 0.0}, {"fp": 1.0}, {"fn": 1.0}, {"fp": 1.0, "fn": 1.0, "tp": 0.0},
-             [1.0, 1.0], (1.0, 1.0), "fp", 1.0, {}, {"FP": 1.0, "FN": 1.0}]
+             [1.0, 1.0], (1.0, 1.0), "fp", 1.0, {}, {"FP": 1.0, "FN": 1.0},
+             {"fp": float("nan"), "fn": 1.0}, {"fp": 1.0, "fn": np.float64("nan")}, {"fp": np.float32("nan"), "fn": float("nan")}]
     spec = specs[i % len(specs)]
     expect_raise(ctx, "bad_error_rate_costs", lambda: red.ErrorRate(costs=spec), {"costs": repr(spec)})
 
@@ -329,7 +330,7 @@ def run_weight(ctx, rng, key):
     import fairlearn.reductions as red
 
     i, _ = key
-    w = [-0.1, 1.1, 2, -1, 1.0000001, -1e-9][i % 6]
+    w = [-0.1, 1.1, 2, -1, 1.0000001, -1e-9, float("nan")][i % 7]
     expect_raise(ctx, "constraint_weight_out_of_range:GridSearch", lambda: red.GridSearch(ExactLearner("cells"), red.DemographicParity(), constraint_weight=w),
                  {"constraint_weight": w})
 
